@@ -341,6 +341,14 @@ def dispatch_worker(inst, out):
     return out
 
 
+def _more_specific(p, q):
+    """p is at least as specific as q (members of a Union are classes here)"""
+    import typing
+    ps = typing.get_args(p) or (p,)
+    qs = typing.get_args(q) or (q,)
+    return all(any(issubclass(a, b) for b in qs) for a in ps)
+
+
 def history_worker(inst, out):
     """concrete side check (a history property of the dispatcher cache, not a solver result): the choice depends
     only on the argument types, not on earlier dispatches / registration order among unrelated patterns"""
@@ -367,6 +375,34 @@ def history_worker(inst, out):
         if got != ("B", "A", "C", "default"):
             out.update(status="violation", kind="dispatch", detail="registration order %s changes the choice: %s" % ([n for _, n in order], got))
             return out
+    out["discharged"] += 1
+    # Union patterns against plain classes, through a real DispatchedInterpretation, in every registration order
+    import typing
+    import numpy as np
+    import funsor
+    import funsor.ops as ops
+    from funsor.interpretations import DispatchedInterpretation
+    from funsor.tensor import Tensor
+    from funsor.terms import Funsor, Number, Unary, Variable
+    out["obligations"] += 1
+    pats = {"funsor": Funsor, "union": typing.Union[Number, Tensor], "number": Number, "union2": typing.Union[Number, Variable]}
+    for names in (("funsor", "union", "number"), ("funsor", "union", "union2"), ("funsor", "union")):
+        for order in itertools.permutations(names):
+            interp = DispatchedInterpretation("order")
+            for o in order:
+                interp.register(Unary, ops.NegOp, pats[o])((lambda o: (lambda op, a: o))(o))
+            args = {"number": Number(1.0), "tensor": Tensor(np.zeros(2)), "variable": Variable("v", funsor.Real)}
+            got = {k: interp.interpret(Unary, ops.neg, v) for k, v in args.items()}
+            # the most specific registered pattern per argument kind
+            def want(kind):
+                cands = [n for n in names if isinstance(args[kind], typing.get_args(pats[n]) or (pats[n],))]
+                best = [n for n in cands if all(n == m or _more_specific(pats[n], pats[m]) for m in cands)]
+                return set(best) if best else set(cands)
+            for kind in args:
+                if got[kind] not in want(kind):
+                    out.update(status="violation", kind="dispatch", detail="patterns %s registered in order %s: a %s argument runs rule %r, expected one of %s" % (
+                        list(names), list(order), kind, got[kind], sorted(want(kind))), replay=dict(order=list(order)))
+                    return out
     out["discharged"] += 1
     reg = KeyedRegistry(default=lambda *a: None)
     reg.register(A, A)(lambda x: "AA")
